@@ -142,3 +142,36 @@ Print Assumptions exempt_and_unlimited_unrestricted.
 Theorem tax_wf_preserved : forall ops s, tax_wf s -> Forall op_wf ops -> tax_wf (run s ops).
 Proof. exact tax_wf_run. Qed.
 Print Assumptions tax_wf_preserved.
+
+
+(* --- source translation tie (GenFn) --- *)
+(* The Go function bodies named below are re-translated from the source on every check
+   (harness/cmd/extract/gotrans*.go -> GenFn/*.v, semantics of the Go subset: Trans/GoSem.v).
+   Each theorem states that the hand-written model function equals the translated body for all
+   inputs (hypotheses are Go type ranges / the 256-bit range of math.Int only); the proofs are in
+   Trans/C15Fn.v.  A readable change of the Go body breaks the proof, an unreadable one breaks the
+   translator.  See design/GoTrans.md. *)
+From Paloma Require Trans.GoSem Trans.GoSemFacts Trans.C15Fn.
+
+Theorem tax_formula_model_is_translation_of_source :
+  forall a n d : Z, d <> 0 ->
+  GoSem.res_to_option (GenFn.BridgeTaxAmount.bridgeTaxAmount_tail a n d)
+  = if TaxLimit.fits n && TaxLimit.fits d && TaxLimit.fits (a * n) then Some (Gen.C15.tax_formula a n d) else None.
+Proof. exact Trans.C15Fn.tax_tail_eq. Qed.
+Print Assumptions tax_formula_model_is_translation_of_source.
+
+Theorem next_usage_model_is_translation_of_source :
+  forall (L h a limit : Z) (cur : option TaxLimit.usage),
+  GoSem.in_i64 (h - Trans.C15Fn.usage_start cur) ->
+  GenFn.BridgeTransferUsage.updateUsage_window (Trans.C15Fn.usage_nil cur) (Trans.C15Fn.usage_total cur) (Trans.C15Fn.usage_start cur) h L a limit
+  = Trans.C15Fn.model_outcome L h a limit cur.
+Proof. exact Trans.C15Fn.usage_window_eq. Qed.
+Print Assumptions next_usage_model_is_translation_of_source.
+
+Theorem tax_and_limit_untranslated_context_as_reviewed :
+  GenFn.BridgeTaxAmount.bridgeTaxAmount_tail_context_digest
+  = [0xb83c3ac701e86b94; 0x742e2efb09af0f9a; 0x45e0596fdcbcfb73; 0x3e61961837ed6a6e]%Z /\
+  GenFn.BridgeTransferUsage.updateUsage_window_context_digest
+  = [0xf12f7d1aa1d17aaa; 0xa5614a623721c58a; 0x2b843479acd4a819; 0xcc18d91f03b22168]%Z.
+Proof. exact (conj Trans.C15Fn.tax_context_pinned Trans.C15Fn.usage_context_pinned). Qed.
+Print Assumptions tax_and_limit_untranslated_context_as_reviewed.
